@@ -415,6 +415,7 @@ class Weaver:
         if new_x is None:
             new_x = np.linspace(self.x[0], self.x[-1], n)
         else:
+            new_x = np.asarray(new_x)
             if new_x[0] != self.x[0] or new_x[-1] != self.x[-1]:
                 raise ValueError("new_x should have the same range as x")
         self.y = interpolate(self.x, self.y, new_x, method=method, **kwargs)
